@@ -165,7 +165,7 @@ impl Property for C18 {
         }
     }
     fn rule(&self) -> &'static str {
-        "generated workspaces (virtual or rooted, 1..4 members, lib / bin / explicit [[bin]] / example / test / bench / build-script targets, a source file shared by two targets, package and per-target editions incl. the default 2015, path dependencies inside the workspace and to packages outside it, transitively) x selection (current directory, -p names, --all, --manifest-path of a member spelled absolutely / relatively with `..` / with `./` / through a symlink, an unknown -p, a bad --manifest-path) x working directory (root or a member) x pass-through arguments, --check and --message-format; the real cargo-fmt runs with $RUSTFMT pointing at a recording stand-in whose k-th invocation fails on request; oracle (model computed from the generated manifests): the union of the files passed equals the root source files of all targets of the selected packages, every file is passed once, every invocation carries the edition of its targets and the pass-through arguments in order, cargo-fmt fails iff a stand-in invocation failed, and an unknown package or unusable manifest is an error before any invocation; non-trivial = at least two editions among the selected targets and a path dependency or explicit target; distinct by case content"
+        "generated workspaces (virtual or rooted, 1..4 members, lib / bin / explicit [[bin]] / example / test / bench / build-script targets, a source file shared by two targets of one package or (through `../`) of two packages, package and per-target editions incl. the default 2015, path dependencies inside the workspace and to packages outside it, transitively) x selection (current directory, -p names, --all, --manifest-path of a member spelled absolutely / relatively with `..` / with `./` / through a symlink, an unknown -p, a bad --manifest-path) x working directory (workspace root, a member's directory, a member's src/ subdirectory) x pass-through arguments, --check and --message-format; the real cargo-fmt runs with $RUSTFMT pointing at a recording stand-in whose k-th invocation fails on request; oracle (model computed from the generated manifests): the union of the files passed equals the root source files of all targets of the selected packages, every file is passed once, every invocation carries the edition of its targets and the pass-through arguments in order, cargo-fmt fails iff a stand-in invocation failed, and an unknown package or unusable manifest is an error before any invocation; non-trivial = at least two editions among the selected targets and a path dependency or explicit target; distinct by case content"
     }
     fn assumptions(&self) -> Vec<&'static str> {
         vec![
@@ -191,6 +191,14 @@ impl Property for C18 {
         let n_out = c.below(3);
         for i in 0..n_out {
             packages.push(gen_package(c, &format!("outside{i}"), &format!("../outside{i}"), false));
+        }
+        // a source file shared by targets of two packages, reached through `../` (cargo reports
+        // such paths un-normalised): it must still be passed once
+        let tops: Vec<usize> = packages.iter().enumerate().filter(|(_, p)| p.member && !p.dir.is_empty() && !p.dir.contains('/')).map(|(i, _)| i).collect();
+        if tops.len() >= 2 && c.chance(1, 6) {
+            for &i in tops.iter().take(2) {
+                packages[i].targets.push(Target { path: "../shared/common.rs".into(), kind: "example".into(), explicit: true, edition: Some("2021".into()) });
+            }
         }
         // dependencies: a member may depend on later members and on outside packages; outside
         // packages may depend on later outside packages (transitive)
@@ -235,7 +243,15 @@ impl Property for C18 {
             _ => json!({"kind": "bad-manifest"}),
         };
         let members: Vec<&Package> = packages.iter().filter(|p| p.member).collect();
-        let cwd = if c.chance(1, 2) { String::new() } else { members[c.below(members.len())].dir.clone() };
+        let cwd = match c.weighted(&[3, 3, 1]) {
+            0 => String::new(),
+            1 => members[c.below(members.len())].dir.clone(),
+            _ => {
+                // a subdirectory of a member (every package has a src/ directory)
+                let d = members[c.below(members.len())].dir.clone();
+                if d.is_empty() { "src".to_string() } else { format!("{d}/src") }
+            }
+        };
         let passthrough: Vec<&str> = match c.below(4) {
             0 => vec![],
             1 => vec!["--config", "max_width=80"],
@@ -384,8 +400,29 @@ impl Property for C18 {
                         o.labels.push("rooted-root-current:not-judged".into());
                         return o;
                     }
+                } else if let Some(p) = ws.packages.iter().find(|p| p.dir == cwd_rel) {
+                    Some(vec![p])
                 } else {
-                    Some(ws.packages.iter().filter(|p| p.dir == cwd_rel).collect())
+                    // a strict subdirectory of a package: that package is the current one
+                    let owner = ws.packages.iter().filter(|p| p.member && (p.dir.is_empty() || cwd_rel.starts_with(&format!("{}/", p.dir)))).max_by_key(|p| p.dir.len());
+                    let n_members = ws.packages.iter().filter(|p| p.member).count();
+                    match owner {
+                        Some(p) if n_members == 1 => Some(vec![p]),
+                        Some(p) => {
+                            // known class: with more than one workspace member cargo-fmt only
+                            // recognises the current package when the working directory holds its manifest
+                            let judge_known = case["judge_known"].as_bool().unwrap_or(false);
+                            if !judge_known {
+                                o.excluded.push("known-class:subdirectory-of-a-member".into());
+                                return o;
+                            }
+                            if invocations.is_empty() && !out.status.success() {
+                                return Outcome::fail("current-package-not-found-from-subdirectory", format!("cargo fmt from `{cwd_rel}` (inside package `{}`) fails instead of formatting the current package\n{}", p.name, describe())).nontrivial(true);
+                            }
+                            Some(vec![p])
+                        }
+                        None => return Outcome::skip("cwd-outside-every-package"),
+                    }
                 }
             }
         };
